@@ -548,6 +548,81 @@ fn gen_strategy(t: Tier) -> BoxedStrategy<Scenario> {
         .prop_map(|(k, trains, merge, strays, (reuse_mask, as_frame, spare))| Scenario { k, trains, merge, strays, reuse_mask, as_frame, spare }))
 }
 
+
+// ---- starved pool: a first fragment that finds no free storage must not take one from another PDU ----
+
+fn starved_decode(i: u64) -> (usize, usize, u8, usize, bool) {
+    let k = 2 + (i % 7) as usize;
+    let n = 1 + ((i / 7) % 8) as usize % (k - 1);
+    let base = [0u8, 37, 128, 240][((i / 56) % 4) as usize];
+    let intruder_at = ((i / 224) % 3) as usize; // after the firsts / after the intermediates of half the trains / twice
+    let rev = (i / 672) % 2 == 1;
+    (k, n, base, intruder_at, rev)
+}
+
+fn check_starved(i: u64, st: &mut Stats) -> Result<(), String> {
+    let (k, n, base, intruder_at, rev) = starved_decode(i);
+    // n open trains on ids base..base+n (distinct slots), exactly n storages: the pool is empty once all are open
+    let mut d = new_simple_dec(k, 64, &vec![64; n], TableManager::all());
+    let labs = [Lab::Three(ALPHA3[0]), Lab::Six(ALPHA6[0]), Lab::Broadcast];
+    let trains: Vec<(u8, Lab, u16, Vec<u8>, Vec<Vec<u8>>)> = (0..n)
+        .map(|j| {
+            let id = base + j as u8;
+            let pdu = pdu_bytes(30 + j, 700 + j as u32);
+            let lab = labs[j % 3];
+            let pk = ref_train(lab, 0x0800 + j as u16, id, &pdu, &[10, 10]);
+            (id, lab, 0x0800 + j as u16, pdu, pk)
+        })
+        .collect();
+    let intruder_id = base + n as u8; // its slot is free
+    let intruder = ref_train(Lab::Three(ALPHA3[2]), 0x86DD, intruder_id, &pdu_bytes(25, 9), &[12]);
+    let ctx = format!("slots {} storages {} ids {}..{} intruder id {} at {} rev {}", k, n, base, base as usize + n - 1, intruder_id, intruder_at, rev);
+    let intrude = |d: &mut SimpleDec, st: &mut Stats, when: &str| -> Result<(), String> {
+        st.class("first-fragment-with-empty-pool-and-free-slot");
+        for (q, pkt) in intruder.iter().enumerate() {
+            match call_decap(d, pkt) {
+                Ok(Err(_)) => {}
+                o => return st.violation("starved-first-accepted", format!("{}: packet {} of a train arriving {} while every storage holds an open PDU -> {} (no storage is free: it must be refused)", ctx, q, when, show_dec(&o))),
+            }
+        }
+        Ok(())
+    };
+    for t in &trains {
+        match call_decap(&mut d, &t.4[0]) {
+            Ok(Ok((DecapStatus::FragmentedPkt(_), _))) => {}
+            o => return st.violation("fragment-rejected", format!("{}: first fragment of id {} -> {}", ctx, t.0, show_dec(&o))),
+        }
+    }
+    intrude(&mut d, st, "after the first fragments")?;
+    for (j, t) in trains.iter().enumerate() {
+        if intruder_at >= 1 && j == n / 2 {
+            intrude(&mut d, st, "between the intermediate fragments")?;
+        }
+        match call_decap(&mut d, &t.4[1]) {
+            Ok(Ok((DecapStatus::FragmentedPkt(_), _))) => {}
+            o => return st.violation("fragment-rejected", format!("{}: intermediate fragment of id {} -> {}", ctx, t.0, show_dec(&o))),
+        }
+    }
+    if intruder_at == 2 {
+        intrude(&mut d, st, "before the end fragments")?;
+    }
+    st.class_if(n >= 2, "interleaved");
+    let order: Vec<usize> = if rev { (0..n).rev().collect() } else { (0..n).collect() };
+    for j in order {
+        let t = &trains[j];
+        match call_decap(&mut d, &t.4[2]) {
+            Ok(Ok((DecapStatus::CompletedPkt(b, md), _))) if md.pdu_len() == t.3.len() && b[..t.3.len()] == t.3[..] && Lab::of(&md.label()) == t.1 && md.protocol_type() == t.2 => {
+                // the storage is not given back: the pool stays empty for the remaining trains
+                drop(b);
+            }
+            o => return st.violation("not-delivered", format!("{}: end fragment of id {} must deliver its own PDU, got {}", ctx, t.0, show_dec(&o))),
+        }
+    }
+    st.nontrivial(i);
+    st.sample(|| json!({"starved": ctx}));
+    Ok(())
+}
+
 pub fn property() -> Property {
     Property {
         id: "C07",
@@ -571,6 +646,15 @@ pub fn property() -> Property {
                 check: check_pair,
                 describe: |_t, i| pair_case(i).map(|s| serde_json::to_value(s).unwrap_or(Value::Null)).unwrap_or(Value::Null),
                 required_classes: &["interleaved", "stray-aliases-open-slot", "train-with-extensions", "walked-as-one-frame", "first-fragment-without-payload"],
+            }),
+            Box::new(EnumPart {
+                name: "starved-pool",
+                rule: "n = 1..K-1 open three-fragment trains on distinct slots of a K-slot memory (K = 2..8) provisioned with exactly n storages, so that no storage is free; a further train on an id whose slot is free arrives after the first fragments / between the intermediates / before the ends: every one of its packets must be refused, and each open train must still deliver its own PDU, label and protocol type at its end fragment (both completion orders); exhaustive over (K, n, id base, intruder position, order)",
+                size: |_| 7 * 8 * 4 * 3 * 2,
+                exhaustive: |_| true,
+                check: check_starved,
+                describe: |_t, i| json!({"case": format!("{:?}", starved_decode(i))}),
+                required_classes: &["first-fragment-with-empty-pool-and-free-slot", "interleaved"],
             }),
             Box::new(GenPart {
                 name: "random-interleavings",
